@@ -320,6 +320,24 @@ def prove(goal: BoolSym, assumptions=(), extra_axioms=(), timeout_ms=None, use_c
             return Result("unknown", "z3", dt, model=_model_dict(s.model(), atoms),
                           detail="sat modulo the axioms of " + ",".join(opaque) + " (candidate model only)")
         model = _model_dict(s.model(), atoms)
+        # prefer a counterexample on a small grid (native replay allocates the arrays)
+        ints = [atom_z3(ATOMS[a]) for a in atoms if ATOMS[a].kind == "var" and ATOMS[a].sort == "int"]
+        if ints:
+            for bound in (12, 40):
+                s.push()
+                s.set("timeout", 5000)
+                for v in ints:
+                    s.add(v <= bound, v >= -bound)
+                if s.check() == z3.sat:
+                    model = _model_dict(s.model(), atoms)
+                    for v in ints:
+                        pass
+                    small_bounds = [v <= bound for v in ints] + [v >= -bound for v in ints]
+                    s.pop()
+                    for c_ in small_bounds:
+                        s.add(c_)
+                    break
+                s.pop()
         # for inequalities, look for a counterexample with a comfortable margin (robust native replay)
         if goal.k[0] in ("le", "lt"):
             res = to_z3(Sym._from_key(goal.k[1]), "real")
